@@ -135,11 +135,24 @@ func runC14Sequence(ctx context.Context, run *common.Run, st *c14Stats, idx int,
 		}
 	}
 	var pendingBlock *bitcoin.Hash32
+	slowExt := idx%40 == 7
 	send := func(kind string, frame []byte) bool {
 		desc = append(desc, fmt.Sprintf("%s[%d]", kind, len(frame)))
 		st.kind(kind)
 		atomic.AddInt64(&st.msgs, 1)
 		atomic.AddInt64(&st.bytes, int64(len(frame)))
+		if slowExt && len(frame) > 44 && string(bytes.TrimRight(frame[4:16], "\x00")) == "extmsg" {
+			// a slow peer: the 20 bytes that extend the header arrive after the dispatcher's
+			// 3-second slow-handler warning has fired
+			slowExt = false
+			desc[len(desc)-1] += "+slow-extension"
+			run.Count("extended-header-delivered-slowly", 1)
+			if s.Peer.SendRaw(frame[:24]) != nil {
+				return false
+			}
+			time.Sleep(3300 * time.Millisecond)
+			return s.Peer.SendRaw(frame[24:]) == nil
+		}
 		// occasionally split the write to exercise partial reads
 		if len(frame) > 30 && rng.Intn(5) == 0 {
 			cut := 1 + rng.Intn(len(frame)-1)
@@ -431,8 +444,18 @@ func RunC14(tier string, seed int64) int {
 	if v := os.Getenv("VERIF_C14_CASE"); v != "" { // debugging aid: one sequence only
 		fmt.Sscan(v, &only)
 	}
+	// the sequences with a slowly delivered extended header run first and few at a time: in a
+	// process busy with dozens of sessions, unrelated synchronisation (logger, statistics) orders
+	// almost everything by accident and the race detector then has nothing to report
+	var slow []int
+	for i := 0; i < n; i++ {
+		if i%40 == 7 && (only < 0 || i == only) {
+			slow = append(slow, i)
+		}
+	}
+	common.ParallelFor(len(slow), 2, func(k int) { runC14Sequence(ctx, run, st, slow[k], maxPayload) })
 	common.ParallelFor(n, par, func(i int) {
-		if only < 0 || i == only {
+		if i%40 != 7 && (only < 0 || i == only) {
 			runC14Sequence(ctx, run, st, i, maxPayload)
 		}
 	})
